@@ -49,6 +49,7 @@ type FuncContract struct {
 	Ghost      bool // the function updates the ghost handler-error state
 	NoAlloc    bool // proved (or assumed, if trusted) to perform no heap allocation
 	Trusted    bool // contract assumed, body not verified here
+	Pure       bool // results (and the memory written through pointer arguments) are functions of the arguments and the memory reachable from them
 	Sim        string
 	SimOpts    map[string]string
 	Notes      []string
@@ -313,6 +314,8 @@ func (cf *ContractFile) directive(cur **FuncContract, pkg, body, path string, ln
 		fc.Measure = c
 	case "assigns":
 		fc.Assigns = append(fc.Assigns, splitNames(rest)...)
+	case "pure":
+		fc.Pure = true
 	case "trusted":
 		fc.Trusted = true
 		fc.Notes = append(fc.Notes, rest)
